@@ -11,6 +11,10 @@ def call(mod, pb):
     return mod.solve_geradeweg(pb["h"], pb["w"], pb["grid"])
 
 
+def ncand(pb):
+    return 2 ** L.n_loop_edges(pb['h'], pb['w'])
+
+
 def encode(pb):
     return [[pb["h"], pb["w"]], L.flat(pb["grid"])]
 
@@ -24,7 +28,7 @@ def families(tier, rng):
     for (h, w) in [(1, 1), (1, 2), (2, 1), (2, 2), (1, 3), (3, 1)] + ([(2, 3), (3, 2)] if th else []):
         for g in L.all_grids(h, w, _values(h, w)):
             yield {"h": h, "w": w, "grid": g}
-    for (h, w) in [(2, 3), (3, 2), (3, 3), (2, 4), (4, 2), (3, 4), (4, 4)]:
+    for (h, w) in [(2, 3), (3, 2), (3, 3), (2, 4), (4, 2), (2, 5)] + ([(3, 4), (4, 3)] if th else []):
         for _ in range(200 if th else 25):
             yield {"h": h, "w": w, "grid": L.random_grid(rng, h, w, _values(h, w), 0.7)}
 
